@@ -28,7 +28,7 @@ def required(tier):
     b = {f'route:{r}': 3 for r in ROUTES}
     b.update({f'units:{u}': 3 for u in UNITS})
     b.update({'orient:asc': 10, 'orient:desc': 10, 'twin': 5, 'same-numbers-other-flag': 100, 'df:negative-argument': 10, 'history:retimed': 20,
-              'history:phased-time-profile': 20, 'history:smeared-injection': 20, 'history:smeared-cadence-injection': 20, 'history:copy-axes-edited-in-place': 20})
+              'history:phased-time-profile': 20, 'history:smeared-injection': 20, 'history:smeared-cadence-injection': 20, 'history:copy-axes-edited-in-place': 20, 'history:failed-cadence-injection': 20})
     return {'buckets': b, 'counters': {'invariant_evals': 100, 'roundtrip_channels': 1000}, 'checks': 500}
 
 
@@ -188,7 +188,7 @@ def run_case(c, R):
         # short op history under the invariant
         if fr.fchans * fr.tchans <= 300000:
             for _ in range(int(rng.integers(1, 6))):
-                op = int(rng.integers(9))
+                op = int(rng.integers(10))
                 if op == 0:
                     if round(fr.df * fr.dt) >= 1:
                         fr.add_noise(x_mean=10.0)
@@ -239,6 +239,20 @@ def run_case(c, R):
                                   stg.sine_t_profile(period=float(rng.uniform(2, 20)) * fr.dt, phase=float(rng.uniform(0.5, 40)) * fr.dt,
                                                      amplitude=0.5, level=1.0),
                                   stg.gaussian_f_profile(width=3 * fr.df), stg.constant_bp_profile(level=1.0))
+                elif op == 9:
+                    # the frame as a later member of a cadence whose injection FAILS half-way (a time-profile array sized for another
+                    # member): the caller catches the error and goes on using the frames, whose axes are still their own
+                    R.bucket('history:failed-cadence-injection')
+                    lead = stg.Frame(fchans=fr.fchans, tchans=int(fr.tchans) + 2, df=fr.df, dt=fr.dt, fch1=fr.fch1,
+                                     ascending=fr.ascending, t_start=float(fr.t_start) - 700.0 - float(rng.uniform(0, 1e3)))
+                    try:
+                        stg.Cadence([lead, fr]).add_signal(stg.constant_path(f_start=fr.get_frequency(int(rng.integers(fr.fchans))), drift_rate=0.0),
+                                                           np.ones(int(fr.tchans) + 2), stg.gaussian_f_profile(width=3 * fr.df),
+                                                           stg.constant_bp_profile(level=1.0))
+                        R.count('failed_cadence_injection_did_not_fail')
+                    except Exception:                       # noqa
+                        R.count('failed_cadence_injections')
+                    _derived(lead, R, 'history:')
                 elif op == 8:
                     # the frame as a LATER member of a cadence that injects a smeared drifting signal (the cadence shifts the member's
                     # time axis for the duration of the call): afterwards the frame's own axes -- the extended one included -- are its own
